@@ -74,6 +74,38 @@ fn apply_call(e: &mut Encoder<ChunkSink>, m: &str, arg: &str) -> bool {
     }
 }
 
+/// EIT <arr|map> <exact|unbounded|lower|filter> <u16,u16,…>: encode::ArrayIter / MapIter over iterators with the given size hint
+pub fn eit_handler(a: &[&str]) -> String {
+    use minicbor::encode::{ArrayIter, MapIter};
+    let vals: Vec<u16> = if a[2] == "." { vec![] } else { a[2].split(',').map(|v| v.parse().unwrap()).collect() };
+    let is_map = a[0] == "map";
+    let pairs: Vec<(u16, u16)> = vals.chunks(2).filter(|c| c.len() == 2).map(|c| (c[0], c[1])).collect();
+    fn unbounded<T: Clone>(v: Vec<T>, from: usize) -> impl Iterator<Item = T> + Clone {
+        let mut i = from;
+        std::iter::from_fn(move || { let r = v.get(i).cloned(); i += 1; r })
+    }
+    macro_rules! go { ($it:expr, $wrap:ident) => {{
+        let mut e = Encoder::new(ChunkSink::default());
+        let it = $it;
+        let hint = it.size_hint();
+        let ok = e.encode($wrap::new(it)).is_ok();
+        (ok, e.into_writer(), hint)
+    }} }
+    let (ok, sink, hint) = match (is_map, a[1]) {
+        (false, "exact") => go!(vals.clone().into_iter(), ArrayIter),
+        (false, "unbounded") => go!(unbounded(vals.clone(), 0), ArrayIter),
+        (false, "lower") => { let k = vals.len() / 2; go!(vals.clone().into_iter().take(k).chain(unbounded(vals.clone(), k)), ArrayIter) }
+        (false, "filter") => go!(vals.clone().into_iter().filter(|_| true), ArrayIter),
+        (true, "exact") => go!(pairs.clone().into_iter(), MapIter),
+        (true, "unbounded") => go!(unbounded(pairs.clone(), 0), MapIter),
+        (true, "lower") => { let k = pairs.len() / 2; go!(pairs.clone().into_iter().take(k).chain(unbounded(pairs.clone(), k)), MapIter) }
+        (true, "filter") => go!(pairs.clone().into_iter().filter(|_| true), MapIter),
+        _ => return "?bad-EIT".into()
+    };
+    if !ok { return "err".into() }
+    format!("{};hint={},{}", sink.show(), hint.0, hint.1.map(|u| u.to_string()).unwrap_or("none".into()))
+}
+
 /// IC <z>: Int::try_from(i128) and every conversion out of / into Int
 pub fn ic_handler(a: &[&str]) -> String {
     let z: i128 = a[0].parse().unwrap();
